@@ -164,8 +164,7 @@ Qed.
 Lemma wrel_empty gw keys auto : wrel (Writer gw keys ∅ auto) (SWriter keys [] auto).
 Proof.
   constructor; try reflexivity.
-  - intros k _. unfold buf_of. cbn [w_buf sw_buf]. rewrite lookup_empty. reflexivity.
-  - intros n e He. unfold buf_of in He. cbn [w_buf] in He. rewrite lookup_empty in He. inversion He.
+  intros n e He. unfold buf_of in He. cbn [w_buf] in He. rewrite lookup_empty in He. inversion He.
 Qed.
 
 Theorem dstep_refines c s o :
@@ -176,7 +175,7 @@ Proof.
   - (* open *)
     destruct keys as [|k0 keys']; [split; [reflexivity|exact R]|].
     rewrite Hch. destruct (forallb _ (k0 :: keys')); cbn [fst snd]; [|split; [reflexivity|exact R]].
-    split; [reflexivity|]. apply crel_build; try assumption.
+    split; [reflexivity|]. apply crel_build; try assumption; try reflexivity.
     apply writers_rel_insert; [exact Hwr|apply wrel_empty].
   - (* write *)
     pose proof (Hwr id) as Hw.
@@ -198,14 +197,12 @@ Proof.
       rewrite <- Ha. destruct (w_auto w) eqn:Eauto; cbn [fst snd].
       * split; [reflexivity|].
         destruct (commit_related c s buf (sw_buf sw ++ keep_leased f) Hread Hown Hbuf Hbown) as [C1 C2].
-        apply crel_build; try assumption.
+        apply crel_build; try assumption; try reflexivity.
         apply writers_rel_insert; [exact Hwr|]. rewrite Hk. apply wrel_empty.
-      * split; [reflexivity|]. apply crel_build; try assumption.
+      * split; [reflexivity|]. apply crel_build; try assumption; try reflexivity.
         apply writers_rel_insert; [exact Hwr|].
         constructor; cbn [w_keys sw_keys w_auto sw_auto]; try assumption; try reflexivity.
-        -- intros k Hkf. unfold buf_of. cbn [w_buf sw_buf]. apply Hbuf, Hkf.
-        -- intros n e He. unfold buf_of in He. cbn [w_buf] in He. apply (Hbown n e He).
-    + cbn [fst snd]. split; [reflexivity|]. apply crel_build; try assumption.
+    + cbn [fst snd]. split; [reflexivity|]. apply crel_build; try assumption; try reflexivity.
       apply writers_rel_delete, Hwr.
   - (* commit *)
     pose proof (Hwr id) as Hw.
@@ -213,13 +210,13 @@ Proof.
       [|split; [reflexivity|exact R]].
     destruct Hw as [Hk Ha Hb Ho]. cbn [fst snd]. split; [reflexivity|].
     destruct (commit_related c s (w_buf w) (sw_buf sw) Hread Hown Hb Ho) as [C1 C2].
-    apply crel_build; try assumption.
+    apply crel_build; try assumption; try reflexivity.
     apply writers_rel_insert; [exact Hwr|]. rewrite Hk, Ha. apply wrel_empty.
   - (* close *)
     pose proof (Hwr id) as Hw.
     destruct (cl_writers c !! id) as [w|] eqn:Ew, (sg_writers s !! id) as [sw|] eqn:Es; try contradiction;
       [|split; [reflexivity|exact R]].
-    cbn [fst snd]. split; [reflexivity|]. apply crel_build; try assumption.
+    cbn [fst snd]. split; [reflexivity|]. apply crel_build; try assumption; try reflexivity.
     apply writers_rel_delete, Hwr.
 Qed.
 
